@@ -45,6 +45,9 @@ RULE = ("one case = one HTTP exchange through the public APIs followed by a prob
         "compress, keep-alive, wire framing, receiver's framing view and close decision) and with the shared parser model run on "
         "the recorded wire bytes. non-trivial = the exchange put a request on the wire or was refused by the API; distinct by case.")
 TRUSTED_BASE = [
+    "two behaviour flags of the model are probed from the source on every run and written to Generated/C02.lean "
+    "(writerChunksWhenNotNone: ClientRequest(chunked=False)._create_writer().chunked; closeDelimitedClearsKeepAlive: resp.keep_alive "
+    "after StreamResponse.prepare() for an HTTP/1.0 keep-alive request): the theorems are proved for every value of both flags",
     "header transport itself (serialise on one side, parse on the other) is abstracted in the model as the record RecvHdr "
     "(Content-Length value, chunked flag, Connection token): C04 serialize_lines + the shared parser model, run here on the recorded "
     "wire of sampled exchanges, cover it — there is no C02 theorem that parse(serialise(headers)) = headers",
@@ -69,9 +72,48 @@ SIZES = [0, 1, 2, 15, 100, 2047, 2048, 2049, 65535, 65536, 65537]
 SMALL = [0, 1, 2, 15, 100]
 
 
+def _probe_flags():
+    """behaviour probes of the two places where the code was found to deviate (they may be repaired)"""
+    import asyncio
+    from multidict import CIMultiDict
+    from http.cookies import BaseCookie
+    from yarl import URL
+    import aiohttp
+    from aiohttp import web
+    from aiohttp.base_protocol import BaseProtocol
+    from aiohttp.client_reqrep import ClientRequest, ClientResponse
+    from aiohttp.http import HttpVersion10, HttpVersion11
+    from aiohttp.test_utils import make_mocked_request
+    from aiohttp.helpers import TimerNoop
+    out = {}
+
+    async def main():
+        loop = asyncio.get_running_loop()
+        req = ClientRequest("POST", URL("http://h/"), params={}, headers=CIMultiDict(), skip_auto_headers=None, data=b"abc",
+                            cookies=BaseCookie(), version=HttpVersion11, compress=False, chunked=False, expect100=False, loop=loop,
+                            response_class=ClientResponse, proxy=None, response_params={}, timer=TimerNoop(),
+                            timeout=aiohttp.ClientTimeout(), session=None, ssl=True, proxy_headers=None, traces=[],
+                            trust_env=False, server_hostname=None)
+        out["writer"] = bool(req._create_writer(BaseProtocol(loop)).chunked)
+        r = make_mocked_request("GET", "/", version=HttpVersion10, headers={"Connection": "keep-alive"})
+        r._message = r._message._replace(should_close=False)   # the helper forces close for HTTP/1.0
+        assert r.keep_alive is True
+        resp = web.StreamResponse()
+        await resp.prepare(r)
+        out["ka"] = resp.keep_alive is False
+    loop = asyncio.new_event_loop()
+    try:
+        loop.run_until_complete(main())
+    finally:
+        loop.close()
+    return out
+
+
 def generate(repo):
     import aiohttp.web_response as wr
     import aiohttp.client_reqrep as cr
+    fl = _probe_flags()
+    lb = lambda b: "true" if b else "false"
 
     def names(xs):
         return "[" + ", ".join("[" + ", ".join(str(b) for b in x.encode()) + "]" for x in xs) + "]"
@@ -84,6 +126,11 @@ def generate(repo):
             f"def getMethods : List (List Nat) := {names(sorted(cr.ClientRequest.GET_METHODS))}\n"
             "/-- ClientRequestBase.POST_METHODS (sorted) -/\n"
             f"def postMethods : List (List Nat) := {names(sorted(cr.ClientRequestBase.POST_METHODS))}\n"
+            "/-- probe: ClientRequest(chunked=False)._create_writer() enables chunking (`if self.chunked is not None`) -/\n"
+            f"def writerChunksWhenNotNone : Bool := {lb(fl['writer'])}\n"
+            "/-- probe: StreamResponse.prepare() for an HTTP/1.0 keep-alive request without Content-Length leaves\n"
+            "resp.keep_alive False (i.e. the close-delimited branch clears `self._keep_alive`, not only the local) -/\n"
+            f"def closeDelimitedClearsKeepAlive : Bool := {lb(fl['ka'])}\n"
             "end Aio.Gen.C02\n"}
 
 
@@ -520,16 +567,6 @@ def direct_oracle(ctx, case, obs):
     probe_ok = not pr.get("exc") and pr.get("status") == 200 and pr.get("body") == b"probe-ok"
     exp_req_body = obs.get("req_expected_body")
 
-    # ---- 0. a HEAD request that carries a body: one root cause whatever the symptom
-    if method == "HEAD" and rq["body"]["kind"] != "none":
-        ok = (len(main_seen) == 1 and main_seen[0]["body"] == exp_req_body and probe_ok and "exc" not in cli
-              and not any(e.startswith("Bad") for e in obs.get("srv_errs", [])))
-        if not ok:
-            V("request-body-differs/body-of-HEAD-request-ignored-by-server",
-              f"HEAD request carrying a body ({rq['body']['kind']}, {len(exp_req_body or b'')} bytes): handler saw {len(main_seen)} request(s)"
-              f"{', body of %d bytes' % len(main_seen[0]['body']) if main_seen else ''}; caller got {cli.get('status', cli.get('exc'))}; "
-              f"server errors {obs.get('srv_errs')}")
-        return
     # ---- 1. the request on the wire: exactly the request (per its own framing headers), then at most the probe
     if wires:
         cw = wires[0][0]
@@ -548,10 +585,23 @@ def direct_oracle(ctx, case, obs):
                 d = ref_dechunk(rest)
                 if not has_te and d is not None:
                     cause = "chunk-framed-body-without-transfer-encoding"
+                    if rq.get("chunked") is True and rq["body"]["kind"] == "none":
+                        # a different trigger of the same writer/header split: chunked=True on a request without data
+                        cause = "chunked-terminator-without-transfer-encoding/chunked-true-without-data"
             fr = [f"{k}: {v}" for k, v in (h[1] if h else []) if k.lower() in ("content-length", "transfer-encoding")]
             V(f"request-wire-desync/{cause}",
               f"client bytes after the request head do not match its framing headers {fr} ({bad}): ...{cw[-30:]!r}; "
               f"handler saw {len(main_seen)} request(s), caller got {cli.get('status', cli.get('exc'))}")
+            return
+    # ---- 0. a HEAD request that carries a body: one root cause whatever the symptom
+    if method == "HEAD" and rq["body"]["kind"] != "none":
+        ok = (len(main_seen) >= 1 and main_seen[0]["body"] == exp_req_body
+              and not any(e.startswith("Bad") for e in obs.get("srv_errs", [])))
+        if not ok:
+            V("request-body-differs/body-of-HEAD-request-ignored-by-server",
+              f"HEAD request carrying a body ({rq['body']['kind']}, {len(exp_req_body or b'')} bytes): handler saw {len(main_seen)} request(s)"
+              f"{', body of %d bytes' % len(main_seen[0]['body']) if main_seen else ''}; caller got {cli.get('status', cli.get('exc'))}; "
+              f"server errors {obs.get('srv_errs')}")
             return
     # ---- 2. what the handler saw
     api_err = st.get("api_err") or st.get("prep_err") or any(
@@ -1213,14 +1263,38 @@ def corpus_cases():
             if fn.endswith(".json"):
                 with open(os.path.join(d, fn)) as f:
                     j = json.load(f)
+                if "findings" in j:
+                    continue  # proposed_known_findings.json
                 out.append(j.get("case", j))
     return out
 
 
+class _Logging:
+    """server-side exceptions are observed through the `aiohttp.server` logger: make sure logging is
+    enabled while exchanges run (the runner disables it globally) and that nothing is printed"""
+
+    def __enter__(self):
+        self.prev = logging.root.manager.disable
+        logging.disable(logging.NOTSET)
+        logging.getLogger("aiohttp.access").disabled = True
+        logging.getLogger("asyncio").disabled = True
+        lg = logging.getLogger("aiohttp")
+        if not any(isinstance(h, logging.NullHandler) for h in lg.handlers):
+            lg.addHandler(logging.NullHandler())
+        lg.propagate = False
+        return self
+
+    def __exit__(self, *a):
+        logging.disable(self.prev)
+
+
 def check(ctx):
+    with _Logging():
+        _check(ctx)
+
+
+def _check(ctx):
     rng = ctx.rng
-    logging.getLogger("aiohttp.access").disabled = True
-    logging.getLogger("asyncio").disabled = True
     with tempfile.TemporaryDirectory(prefix="c02-") as tmpdir:
         make_files(tmpdir)
         cases = corpus_cases()
@@ -1336,9 +1410,8 @@ def single_cut_cases(ctx, tmpdir):
 
 
 def replay(ctx, case):
-    with tempfile.TemporaryDirectory(prefix="c02-") as tmpdir:
+    with tempfile.TemporaryDirectory(prefix="c02-") as tmpdir, _Logging():
         make_files(tmpdir)
-        logging.getLogger("aiohttp.access").disabled = True
         try:
             obs = run_case(case, tmpdir)
         except ValueError as e:
